@@ -2,3 +2,11 @@
 // SHIM (assumed contracts on std items vstd does not cover)
 pub assume_specification<'a, T: Copy>[ Option::<&'a T>::copied ](o: Option<&'a T>) -> (r: Option<T>)
     ensures r == (match o { Some(x) => Some(*x), None => None::<T> });
+
+/// i32::abs panics (debug) / wraps (release) on i32::MIN: precondition
+pub assume_specification [i32::abs] (x: i32) -> (r: i32)
+    requires x > i32::MIN
+    ensures r == (if x >= 0 { x as int } else { -(x as int) });
+
+pub assume_specification [i32::signum] (x: i32) -> (r: i32)
+    ensures r == (if x > 0 { 1i32 } else if x < 0 { -1i32 } else { 0i32 });
